@@ -33,6 +33,21 @@ P = {
  "C12": dict(technique="runtime monitoring: error monitor applied to every Err produced by all generated workloads",
              text="Exploration: every error returned by any operation, observer or walk item of the typed/untyped/overlay workloads is checked: path label is not the placeholder and is related to the call path or destination (never an inner-layer path), and the kind rules of the property hold (missing entry -> not-found, occupied create_dir -> file/directory-exists, not-supported).",
              ref="§2.8, §4 C12"),
+ "C02": dict(technique="runtime monitoring: lock-step differential execution MemoryFS vs PhysicalFS with full snapshots (no model)",
+             text="Exploration: the same generated history (wrong-type calls, overwrites, re-creations, reader seek/read scripts, large and non-UTF-8 contents) is executed on a fresh MemoryFS and a fresh PhysicalFS; success/failure of every call, the not-found/already-exists classes where the property demands them, return values and the full observable snapshot after every step must agree. No reference model is involved, only agreement is demanded.",
+             ref="§4 C02"),
+ "C04": dict(technique="runtime monitoring: std::io::Cursor session interpreter as reference, read-back monitors over generated write sessions",
+             text="Exploration: (A) engine histories dominated by write sessions with write/seek/flush scripts, boundary lengths, copy/move, on all configurations incl. overlay copy-up, every file read back after every step against Cursor semantics with a random read-buffer size; (B) session cases checking flush visibility through a still-open handle, read-back with buffer sizes 1,2,7,4096,8192,len,len+1, metadata length, copy/move within an instance, to a twin instance and to another backend.",
+             ref="§4 C04"),
+ "C06": dict(technique="runtime monitoring: bounded complete input sweep + random inputs against an independent reference resolver and algebraic laws",
+             text="Exploration (exhaustive for the token bound): every concatenation of up to 6 (quick) / 8 (thorough) tokens from {'/','.','..','a','b.c','é','.h','a.'} joined onto bases of depth 0-3, plus random strings and random join/parent/root chains, on VfsPath and AsyncVfsPath; oracle = independent component-stack resolver, canonical-form predicate, laws (parent-of-join, filename, extension, root, is_root, equality within/across instances, composition).",
+             ref="§4 C06"),
+ "C14": dict(technique="runtime monitoring: call-by-call differential of real handles against std::io::Cursor over generated read/write/seek scripts",
+             text="Exploration: generated contents placed directly or in a lower overlay layer; read scripts (read/seek Start|Current|End with offsets around 0, +-len, +-2^40/read_to_end) and write scripts (create or append; write/seek/flush) are run call by call on the real handle and on std::io::Cursor; every result, the final position and the bytes published by drop must agree. Handles from Mem, Phys, Alt, Ovl (served from lower / copied up) and (C18) EmbeddedFS.",
+             ref="§4 C14"),
+ "C18": dict(technique="runtime monitoring: lock-step differential EmbeddedFS vs PhysicalFS (and std::fs) over the completely enumerated path set",
+             text="Exploration with an exhaustively enumerated, finite path set: every embedded file, implied directory, the root, absent siblings, prefixes and extensions of existing names and paths below files of two fixtures; all observers (full snapshots at three read-buffer sizes), every public path operation and every mutator (must be refused, as NotSupported where a writable backend would accept, without effect).",
+             ref="§4 C18"),
 }
 
 NOT_YET = {
